@@ -147,7 +147,7 @@ func (s *logStore) UpdateData(sm *swap.SwapStateMachine) error {
 		return err
 	}
 	pr := s.w.project(s.n.name, sm)
-	s.w.Emit("p", Ev{"n": s.n.name, "prev": pr["prev"], "cur": pr["cur"], "fl": pr["fl"]})
+	s.w.Emit("p", Ev{"n": s.n.name, "r": pr["role"], "prev": pr["prev"], "cur": pr["cur"], "fl": pr["fl"]})
 	s.w.after(s.n, "persist")
 	return nil
 }
@@ -526,7 +526,8 @@ func (w *World) Snapshot() Ev {
 		if tx.ConfAt > 0 {
 			conf = tx.ConfAt
 		}
-		txs = append(txs, Ev{"owner": tx.Owner, "conf": conf, "spent": spent, "by": by})
+		paid, st := w.LN.invoiceTruth(tx.Hash)
+		txs = append(txs, Ev{"owner": tx.Owner, "conf": conf, "spent": spent, "by": by, "paid": paid, "st": st})
 	}
 	tip := c.Tip
 	c.mu.Unlock()
